@@ -56,8 +56,23 @@ def other_kind_value(kind, cur, ops, j):
     return None
 
 
-MUTATION_KINDS = ['value', 'value-kind', 'rename', 'rename-add', 'origin', 'data', 'data-same-type', 'cast', 'cast-clear',
+MUTATION_KINDS = ['value', 'value-kind', 'value-shape', 'rename', 'rename-add', 'origin', 'data', 'data-same-type', 'cast', 'cast-clear',
                   'dimension', 'hdr-seq', 'set-rename']
+
+
+def other_shape_value(a, op, k):
+    """The values of a dimensioned object in another shape (nested <-> flat, same number of outer entries), if no
+    DIMENSION was given by the user: the dimension written must follow the current values."""
+    if a.kind != 'generic' or not a.nested or 'dimension' in (op.get('attrs') or {}) or 'axis' in (op.get('attrs') or {}):
+        return None
+    cur = op['attrs'][k]['v']
+    if not isinstance(cur, list) or not cur:
+        return None
+    if all(isinstance(x, list) and x and not any(isinstance(y, (list, dict)) for y in x) for x in cur):
+        return [x[0] for x in cur]                      # [[1, 2], [3, 4]] -> [1, 3]
+    if all(isinstance(x, (int, float)) and not isinstance(x, bool) for x in cur):
+        return [[x, x] for x in cur]                    # [1, 3] -> [[1, 1], [3, 3]]
+    return None
 
 
 def mutation(spec, serial=0, want=None, probe=None, at=None):
@@ -105,13 +120,19 @@ def _mutation_at(draw, spec, serial, at, want, free_code, idx):
     # attributes without a fixed representation code: a value of ANOTHER kind (number <-> text <-> date-time <->
     # object reference) must change the code written, whatever was written before
     rekind = {}
+    reshape = {}
     for k, a in TYPES[op['t']]['attrs'].items():
         if a.kind in ('generic', 'dtnum', 'reftext') and 'v' in (op.get('attrs') or {}).get(k, {}):
             nv = other_kind_value(a.kind, op['attrs'][k]['v'], ops, j)
             if nv is not None:
                 rekind[k] = nv
+            sv = other_shape_value(a, op, k)
+            if sv is not None:
+                reshape[k] = sv
     if rekind:
         kinds += ['value-kind']
+    if reshape:
+        kinds += ['value-shape']
     origins = [k for k, o in enumerate(ops) if o['t'] == 'origin' and k < j]   # only origins that exist before the object
     if op['t'] != 'origin' and len(origins) >= 2:
         kinds.append('origin')
@@ -137,6 +158,9 @@ def _mutation_at(draw, spec, serial, at, want, free_code, idx):
     elif kind == 'value-kind':
         kw = draw(st.sampled_from(sorted(rekind)))
         m.update(kind='value', kw=kw, v=rekind[kw], rekind=True)
+    elif kind == 'value-shape':
+        kw = draw(st.sampled_from(sorted(reshape)))
+        m.update(kind='value', kw=kw, v=reshape[kw], reshape=True)
     elif kind == 'rename':
         m['name'] = 'FRESH-' + str(serial)
     elif kind == 'rename-add':
@@ -195,6 +219,16 @@ def histories(draw, force=None):
         source = 'dict' if (slot == 0 and force in ('data', 'data-same-type')) else \
             draw(st.sampled_from(['inline', 'inline', 'dict']))
         specs.append(draw(file_specs(slot_profile(source))))
+    if force == 'value-shape':
+        o = specs[0]['lfs'][0]['ops']
+        o.append({'t': 'zone', 'name': 'ZS1', 'attrs': {}})
+        o.append({'t': 'zone', 'name': 'ZS2', 'attrs': {}})
+        nested = draw(st.booleans())
+        o.append({'t': draw(st.sampled_from(['parameter', 'computation'])), 'name': 'SHAPED', 'attrs': {
+            'zones': {'v': [{'$ref': len(o) - 2}, {'$ref': len(o) - 1}], 'r': 'kw'},
+            'values': {'v': [[1, 2, 3], [4, 5, 6]] if nested else [1.5, 2.5], 'r': draw(st.sampled_from(['kw', 'later']))}}})
+        if specs[0].get('order'):
+            specs[0]['order'] += [[0, len(o) - 3], [0, len(o) - 2], [0, len(o) - 1]]
     steps = [{'do': 'build', 'slot': 0}]
     built = {0}
     n = draw(st.integers(2, 9))
@@ -468,7 +502,7 @@ class C14(Property):
                     old_d = case['specs'][k]['lfs'][0]['ops'][m['op']]['data']
                     if (m['data']['dt'], m['data']['shape'][1:]) != (old_d['dt'], old_d['shape'][1:]):
                         swapped.add(k)
-                labels.append('mut:' + m['kind'] + ('-kind' if m.get('rekind') else ''))
+                labels.append('mut:' + m['kind'] + ('-kind' if m.get('rekind') else '') + ('-shape' if m.get('reshape') else ''))
             elif do == 'hc-write':
                 r = B.build_and_write(HC_SPEC, ctx.path(), ctx.scratch)
                 labels.append('hc-write')
